@@ -185,7 +185,8 @@ def malformed_job(job):
                 elif kind == 'output':
                     good = pre + 'n1/li/x'
                     outs = {'dict': {'o': pre + job['path']}, 'list': [pre + job['path']],
-                            'dict2': {'g': good, 'o': pre + job['path']}, 'list2': [good, pre + job['path']]}[job['form']]
+                            'dict2': {'g': good, 'o': pre + job['path']}, 'list2': [good, pre + job['path']],
+                            'dict2r': {'o': pre + job['path'], 'g': good}, 'list2r': [pre + job['path'], good]}[job['form']]
                     circuit().run(outputs=outs, **run_kw)
                 elif kind == 'edge_values':
                     c = circuit()
@@ -286,7 +287,7 @@ def malformed_jobs(tier):
                               tgt=bad if which == 'tgt' else 'n1/li/u', must='raise',
                               key=f"edge:{which}:component{i}:vec={vec}"))
         for hier in (False, True):
-            for form in ('dict', 'list', 'dict2', 'list2'):
+            for form in ('dict', 'list', 'dict2', 'list2', 'dict2r', 'list2r'):
                 for bad, i in misspellings('n0/li/x'):
                     J.append(dict(kind='output', vectorize=vec, hier=hier, form=form, path=bad, must='raise',
                                   key=f"output:{form}:component{i}:hier={hier}:vec={vec}"))
